@@ -145,8 +145,27 @@ func c18GenLogits(r *zzverif.Rng, out *zzverif.Out) []float32 {
 		n = r.Range(1501, 4096)
 	}
 	vs := make([]float32, n)
-	class := r.Intn(16)
+	class := r.Intn(17)
 	switch class {
+	case 16: // one or two dominant tokens, a long tail of tiny probabilities (each about half an ulp of
+		// the running sum: float32 summation error accumulates) and some -Inf entries: the regime in
+		// which "sum of the parts" and "the parts one after the other" round differently near r = 1
+		out.Count("vec_longtail_masked")
+		if n < 300 {
+			n = r.Range(300, 3000)
+			vs = make([]float32, n)
+		}
+		gap := c18RandFloat(r, 14, 19)
+		for i := range vs {
+			vs[i] = c18RandFloat(r, -0.01, 0.01)
+		}
+		vs[r.Intn(n)] = gap
+		if r.Bool() {
+			vs[r.Intn(n)] = gap - c18RandFloat(r, 0, 1)
+		}
+		for j := 0; j < r.Range(1, 5); j++ {
+			vs[r.Intn(n)] = c18NegInf
+		}
 	case 0, 1, 2, 3: // ordinary logits
 		out.Count("vec_normal")
 		for i := range vs {
